@@ -195,6 +195,39 @@ def eval_case(c):
         love = r['love_number_by_orderl']
         nontriv = False
         obs = {'orders': sorted(int(k) for k in love.keys()), 'unique_freqs': len(uf)}
+        # direct call of the mode collapse: the compliance of a mode is looked up by its frequency signature, so the insertion order of the
+        # compliance dictionary must not matter
+        if model != 'off' and len(uf) >= 2:
+            try:
+                from TidalPy.rheology.complex_compliance import known_models
+                from TidalPy.rheology.complex_compliance.complex_compliance import compliance_dict_helper
+                from TidalPy.tides.dissipation import calc_tidal_susceptibility
+                Jd = compliance_dict_helper(uf, known_models[model.lower()], (1.0 / mu, eta), tuple())
+                sus = calc_tidal_susceptibility(Mh, R, a)
+                A = collapse(g, R, rho, mu, 1.0, Mh, sus, Jd, terms, max_order_l=lmax, cpl_ctl_method=False)
+                keys_r = list(Jd.keys())[::-1]
+                if type(Jd) is dict:
+                    Jr = {}
+                else:
+                    import numba
+                    from numba.typed import Dict as NDict
+                    Jr = NDict.empty(numba.typeof(keys_r[0]), numba.typeof(Jd[keys_r[0]]))
+                for k_ in keys_r:
+                    Jr[k_] = Jd[k_]
+                B = collapse(g, R, rho, mu, 1.0, Mh, sus, Jr, terms, max_order_l=lmax, cpl_ctl_method=False)
+                cnt['comparisons'] += 1
+                for nm_, xa, xb in (('tidal_heating', A[0], B[0]), ('dUdM', A[1], B[1]), ('dUdw', A[2], B[2]), ('dUdO', A[3], B[3])):
+                    xa, xb = float(np.asarray(xa).flat[0]), float(np.asarray(xb).flat[0])
+                    if abs(xa - xb) > 1e-12 * max(abs(xa), abs(xb), 1e-300):
+                        viol.append({'key': 'collapse-depends-on-compliance-dict-order', 'desc': f'collapse_modes {nm_}: {xa!r} with the compliance dictionary in the order of the tidal terms but {xb!r} with the same entries inserted in reverse order (lmax={lmax}, {len(keys_r)} frequencies, {model})'})
+                        break
+                for l_ in range(2, lmax + 1):
+                    ka, kb = complex(np.asarray(A[4][l_]).flat[0]), complex(np.asarray(B[4][l_]).flat[0])
+                    if abs(ka - kb) > 1e-12 * max(abs(ka), 1e-300):
+                        viol.append({'key': 'collapse-depends-on-compliance-dict-order', 'desc': f'collapse_modes love_number_by_orderl[{l_}]: {ka!r} vs {kb!r} for reversed insertion order of the compliance dictionary'})
+                        break
+            except (ImportError, KeyError):
+                pass
         if sorted(int(k) for k in love.keys()) != list(range(2, lmax + 1)):
             viol.append({'key': 'love-by-orderl-keys', 'desc': f'love_number_by_orderl has orders {sorted(love.keys())}, expected 2..{lmax}'})
         for l in range(2, lmax + 1):
